@@ -4,6 +4,22 @@ from ..check import Slice, Query
 from ..summary import Item, items, is_ok, bv
 
 ID = 'C08'
+def _compilable(summ):
+    """Engine B witnesses: rustc itself rejects duplicate discriminants and values outside the base type's range, so only
+    enums with distinct, representable values can be compiled (the open known finding covers the out-of-range ones)"""
+    rng = {'u8': (0, 255), 'u16': (0, 65535), 'u32': (0, 2**32 - 1), 'u64': (0, 2**64 - 1), 'i8': (-128, 127), 'i16': (-2**15, 2**15 - 1),
+           'i32': (-2**31, 2**31 - 1), 'i64': (-2**63, 2**63 - 1)}
+    for m in summ[1]:
+        for it in m[3]:
+            inner = it[4][3]
+            if inner[0] == 'enum':
+                vals = [v for _, v in inner[3]]
+                lo, hi = rng.get(inner[1][1], (0, -1))
+                if len(set(vals)) != len(vals) or any(not (lo <= v <= hi) for v in vals): return False
+    return True
+
+
+ENGINE_B = {'template': 't_enum', 'kinds': ['enum_'], 'max_quick': 8, 'max_thorough': 48, 'accept': _compilable}
 BASES = [('u8', 8, False), ('u16', 16, False), ('u32', 32, False), ('u64', 64, False),
          ('i8', 8, True), ('i16', 16, True), ('i32', 32, True), ('i64', 64, True)]
 VARIANTS = ['V0', 'V1', 'V2', 'V3', 'V4', 'V5', 'V6', 'V7']
